@@ -355,6 +355,10 @@ struct BoundPlan {
     /// per mille of entries the stream refuses with an I/O error: handing an entry over is
     /// writer progress whether or not the stream liked it
     err_pm: u64,
+    /// None: the queue is kept FULL (two appends per consumed entry). Some(b): a lock-step producer
+    /// keeps a small backlog of exactly b entries (one append per consumed entry): never empty,
+    /// never anywhere near full
+    backlog: Option<usize>,
 }
 
 fn bounded_history(plan: &BoundPlan, rep: &Report) -> Option<u64> {
@@ -427,14 +431,15 @@ fn bounded_inner(plan: &BoundPlan) -> BoundOut {
             seq.set(seq.get() + 1);
         }
     };
-    // fill: one entry in hand + a full ring
-    append(plan.capacity as u32 + 3);
+    // fill: one entry in hand + a full ring (or + the small backlog)
+    let per_unit = if plan.backlog.is_some() { 1 } else { 2 };
+    append(plan.backlog.map_or(plan.capacity as u32 + 3, |b| b as u32 + 1));
     if !progress_wait(|| sh.blocked_next.load(Ordering::SeqCst), stall) {
         return Err("writer never blocked at the gate".into());
     }
     let mut consumed = 0u64;
     let mut one_unit = |append: &mut dyn FnMut(u32)| -> Result<(), String> {
-        append(2); // keep the queue full: the writer never sees it empty
+        append(per_unit); // keep the queue full / the backlog constant: the writer never sees it empty
         consumed += 1;
         sh.add_fuel(1);
         if !progress_wait(|| sh.consumed_ids.load(Ordering::SeqCst) >= consumed, stall) {
@@ -994,8 +999,10 @@ fn native_main(args: &Args, rep: &Report) {
                                 }
                             }
                         } else {
+                            let capacity = *rng.pick(&[1usize, 2, 5, 31, 32, 33, 64, 100, 257, 1024]);
                             let plan = BoundPlan {
-                                capacity: *rng.pick(&[1usize, 2, 5, 31, 32, 33, 64, 100, 257]),
+                                backlog: if rng.below(3) == 0 { Some(1 + rng.usize_below((capacity / 4).max(1)).min(capacity - 1).max(0)) } else { None },
+                                capacity,
                                 warmup_units: rng.below(70) as u32,
                                 second_request_after: if rng.below(3) == 0 { Some(rng.below(40) as u32) } else { None },
                                 boxed: rng.bool(),
